@@ -15,6 +15,9 @@ import numpy as np
 from hypothesis import strategies as st
 
 from vf.harness import Clause, Info, require, Violation
+from vf import harness as _harness
+# every case here is a graph of <= 12 nodes (milliseconds): a search that is still running after two minutes never ends
+_harness.CASE_TIMEOUT_S = min(_harness.CASE_TIMEOUT_S, 120.0) if _harness.CASE_TIMEOUT_S > 0 else 120.0
 
 from enspara import tpt
 
